@@ -1,6 +1,8 @@
 package verifh
 
 import (
+	"fmt"
+
 	"github.com/cockroachdb/errors"
 	"github.com/cockroachdb/errors/errbase"
 	"verifh/gen"
@@ -19,26 +21,32 @@ func kindAt(b *gen.B, i int) string {
 }
 
 // compareTrees asserts that a and b have the same cause-tree shape and the same
-// Error() text at every node.
+// Error() text at every node. A text difference is attributed to the innermost
+// node that shows it: a node's texts are required to be equal whenever the
+// texts of everything below it are. Assert ids carry the Go type of a's node.
 func compareTrees(v *sym.V, tag string, m *gen.B, a, b error) {
-	for i := 0; ; i++ {
-		k := kindAt(m, i)
-		if a == nil || b == nil {
-			v.Assert("shape@"+tag+"/"+k, a == nil && b == nil)
-			return
-		}
-		v.Assert("text@"+tag+"/"+k, a.Error() == b.Error())
-		ma, mb := errbase.UnwrapMulti(a), errbase.UnwrapMulti(b)
-		v.Assert("branches@"+tag+"/"+k, len(ma) == len(mb))
-		if len(ma) == len(mb) {
-			for j := range ma {
-				var sub *gen.B
-				if m != nil && i == len(m.Kinds)-1 && j < len(m.Multi) {
-					sub = m.Multi[j]
-				}
-				compareTrees(v, tag+"/branch", sub, ma[j], mb[j])
-			}
-		}
-		a, b = errors.UnwrapOnce(a), errors.UnwrapOnce(b)
+	cmpTree(v, tag, a, b)
+}
+
+func cmpTree(v *sym.V, tag string, a, b error) bool {
+	if a == nil || b == nil {
+		v.Assert("shape@"+tag, a == nil && b == nil)
+		return a == nil && b == nil
 	}
+	k := fmt.Sprintf("%T", a)
+	below := true
+	ca, cb := errors.UnwrapOnce(a), errors.UnwrapOnce(b)
+	if ca != nil || cb != nil {
+		below = cmpTree(v, tag, ca, cb)
+	}
+	ma, mb := errbase.UnwrapMulti(a), errbase.UnwrapMulti(b)
+	v.Assert("branches@"+tag+"/"+k, len(ma) == len(mb))
+	if len(ma) == len(mb) {
+		for j := range ma {
+			below = sym.And(below, cmpTree(v, tag+"/branch", ma[j], mb[j]))
+		}
+	}
+	eq := sym.EqStr(a.Error(), b.Error())
+	v.Assert("text@"+tag+"/"+k, sym.Implies(below, eq))
+	return sym.And(below, eq)
 }
